@@ -58,8 +58,17 @@ Theorem SRC_update_lanes : forall p b fuel c e size,
   = lift (p_update_lanes p size c) (fun c' => (genv_of c' e, [Some (VN size)], None)).
 Proof. exact update_lanes_ok. Qed.
 
-(* from here on the byte-level helpers (HashPacket::len / as_slice, remainder, data_to_lanes) are supplied by the
-   hand-written model; the pending length is assumed to fit a u64 (it is at most 32) *)
+(* byte-level: for a slice of ANY length *)
+Theorem SRC_data_to_lanes : forall p b fuel g d,
+  call p b (S fuel) "data_to_lanes" g [VA d] = Ok (g, [Some (VA d)], Some (VA (ll (p_data_to_lanes d)))).
+Proof. exact data_to_lanes_ok. Qed.
+
+Theorem SRC_remainder : forall p b fuel g bytes,
+  call p b (S fuel) "remainder" g [VA bytes] = lift (p_remainder p bytes) (fun r => (g, [Some (VA bytes)], Some (VA r))).
+Proof. exact remainder_ok. Qed.
+
+(* from here on the two HashPacket accessors (len / as_slice) are supplied by the hand-written model; the pending length is
+   assumed to fit a u64 (it is at most 32) *)
 Theorem SRC_update_remainder : forall p b, N.of_nat (plen b) <= M64 -> forall fuel c e,
   call p b (S (S (S fuel))) "update_remainder" (genv_of c e) []
   = lift (p_update_remainder p {| core := c; buffer := b |}) (fun c' => (genv_of c' e, [], None)).
@@ -96,5 +105,7 @@ Print Assumptions SRC_permute_and_update.
 Print Assumptions SRC_module_reduction.
 Print Assumptions SRC_rotate_32_by.
 Print Assumptions SRC_update_lanes.
+Print Assumptions SRC_data_to_lanes.
+Print Assumptions SRC_remainder.
 Print Assumptions SRC_update_remainder.
 Print Assumptions SRC_finalize.
